@@ -730,6 +730,8 @@ def compile_path_files(repo):
         if not os.path.exists(path):
             continue
         seen.add(rel)
+        if os.path.getsize(path) > 1_000_000:
+            continue            # generated tables (cached_parser.py): imports lr1/parser_types only
         try:
             tree = ast.parse(open(path).read())
         except SyntaxError:
@@ -781,6 +783,8 @@ def analyse(repo=None):
             s["why"] = allow[hit]["why"]
             used.add(hit)
     stale = sorted(set(allow) - used)
+    for s in sites:
+        s["on_compile_path"] = s["file"] in on_path
     return sites, stale
 
 
